@@ -425,7 +425,263 @@ fn check_events(line: &str, out: &mut CaseOut, desc: &str) -> String {
     sig.join("")
 }
 
+// ======================================================================
+// Migration pool: few configurations, several threads, objects that keep
+// moving between threads in the middle of their rounds (in-process stage).
+
+struct Job {
+    dec: Box<dyn crate::codec::DynDec + Send>,
+    api: crate::codec::Api,
+    k: usize,
+    r: usize,
+    size: usize,
+    originals: Vec<Vec<u8>>,
+    recovery: Vec<Vec<u8>>,
+    /// shards still to be added in this round: (is_recovery, index)
+    todo: Vec<(bool, usize)>,
+    given_originals: Vec<usize>,
+    rounds_left: usize,
+    rng: Rng,
+    trail: Vec<String>,
+}
+
+enum Msg {
+    Job(Box<Job>),
+    Stop,
+}
+
+/// The universe of this run: a handful of (rate, k, r) whose positions all lie
+/// below 16, and a handful of position masks that serve as received sets for
+/// every configuration. Few keys on purpose: independent objects are meant to
+/// collide in everything but their identity.
+struct Universe {
+    configs: Vec<(crate::codec::RateKind, usize, usize)>,
+    masks: Vec<u16>,
+}
+
+fn universe(rng: &mut Rng) -> Universe {
+    use crate::codec::RateKind;
+    // all gap-free configurations that occupy exactly the positions 0..f:
+    // every received-set mask then means the same bits for each of them,
+    // although originals and recovery shards sit at different positions
+    let f = *rng.pick(&[7usize, 11, 13, 14, 15, 15]);
+    let mut all = Vec::new();
+    for a in [1usize, 2, 4, 8] {
+        if a < f {
+            all.push((RateKind::Low, a, f - a)); // originals 0..a, recovery a..f
+            all.push((RateKind::High, f - a, a)); // recovery 0..a, originals a..f
+        }
+    }
+    rng.shuffle(&mut all);
+    all.truncate(6);
+    let masks = (0..4).map(|_| (rng.next_u64() | rng.next_u64()) as u16).collect();
+    Universe { configs: all, masks }
+}
+
+/// positions (original index -> position, recovery index -> position)
+fn positions(rate: crate::codec::RateKind, k: usize, r: usize) -> (usize, usize) {
+    match rate {
+        crate::codec::RateKind::High => (r.next_power_of_two(), 0),
+        _ => (0, k.next_power_of_two()),
+    }
+}
+
+fn pool_config(rng: &mut Rng, u: &Universe) -> (crate::codec::Api, usize, usize, usize) {
+    use crate::codec::{Api, EngineKind};
+    let (rate, k, r) = *rng.pick(&u.configs);
+    let eng = *rng.pick(&[EngineKind::NoSimd, EngineKind::Avx2, EngineKind::Naive]);
+    let eng = if eng.available() { eng } else { EngineKind::NoSimd };
+    (Api::Rate(rate, eng), k, r, *rng.pick(&[2usize, 64]))
+}
+
+fn pool_new_round(job: &mut Job, u: &Universe) {
+    let rng = &mut job.rng;
+    job.originals = (0..job.k).map(|_| rng.bytes(job.size)).collect();
+    let rate = match job.api {
+        crate::codec::Api::Wrapper => crate::codec::RateKind::Default,
+        crate::codec::Api::Rate(rt, _) => rt,
+    };
+    job.recovery = crate::codec::encode_fresh(
+        crate::codec::Api::Rate(rate, crate::codec::EngineKind::NoSimd),
+        job.k,
+        job.r,
+        job.size,
+        &job.originals,
+    )
+    .expect("reference encode");
+    // received set: one of the run's position masks, completed if it is too small
+    let (ob, rb) = positions(rate, job.k, job.r);
+    let mask = *rng.pick(&u.masks);
+    let mut oi: Vec<usize> = (0..job.k).filter(|i| mask >> (ob + i) & 1 != 0).collect();
+    let mut ri: Vec<usize> = (0..job.r).filter(|i| mask >> (rb + i) & 1 != 0).collect();
+    let mut next = 0;
+    while oi.len() + ri.len() < job.k {
+        if !ri.contains(&next) && next < job.r {
+            ri.push(next);
+        } else if !oi.contains(&next) && next < job.k {
+            oi.push(next);
+        }
+        next += 1;
+    }
+    oi.sort_unstable();
+    ri.sort_unstable();
+    job.given_originals = oi.clone();
+    job.todo = oi.iter().map(|i| (false, *i)).chain(ri.iter().map(|i| (true, *i))).collect();
+    let seed = rng.next_u64();
+    Rng::new(seed).shuffle(&mut job.todo);
+}
+
+fn migration_stage(cfg: &RunCfg, agg: &Mutex<Agg>) {
+    use crate::codec;
+    if !cfg.stage_enabled("migration") || cfg.only_case.is_some() {
+        return;
+    }
+    let threads = 6usize;
+    // few objects per thread (their identities collide across threads), many rounds
+    let per_thread = 3usize;
+    let rounds = (crate::count(cfg, 3000, 40_000) as usize).div_ceil(threads * per_thread).max(4);
+    let (txs, rxs): (Vec<_>, Vec<_>) = (0..threads).map(|_| mpsc::channel::<Msg>()).unzip();
+    let live = Arc::new(std::sync::atomic::AtomicUsize::new(per_thread * threads));
+    let out = Mutex::new(CaseOut::default());
+    let decodes = AtomicU64::new(0);
+    let moves = AtomicU64::new(0);
+    let mut rng = Rng::new(mix(cfg.seed, 0x316));
+    let uni = universe(&mut rng);
+    let seeds: Vec<u64> = (0..threads).map(|_| rng.next_u64()).collect();
+    let start = Barrier::new(threads);
+    std::thread::scope(|s| {
+        for (t, rx) in rxs.into_iter().enumerate() {
+            let txs = txs.clone();
+            let (live, out, decodes, moves, uni, start) = (&live, &out, &decodes, &moves, &uni, &start);
+            let seed = seeds[t];
+            s.spawn(move || {
+                // every thread configures its own decoders, in the same order
+                // (first for a larger configuration, then reset to a small one)
+                let mut rng = Rng::new(seed);
+                let mut mine = Vec::new();
+                for _ in 0..per_thread {
+                    let (api, k, r, size) = pool_config(&mut rng, uni);
+                    let mut dec = codec::make_dec(api, 16, 16, size, None).expect("new");
+                    dec.reset(k, r, size).expect("reset");
+                    let mut job = Box::new(Job {
+                        dec,
+                        api,
+                        k,
+                        r,
+                        size,
+                        originals: Vec::new(),
+                        recovery: Vec::new(),
+                        todo: Vec::new(),
+                        given_originals: Vec::new(),
+                        rounds_left: rounds,
+                        rng: Rng::new(rng.next_u64()),
+                        trail: vec![format!("t{t}:new {}(16,16) reset({k},{r},{size})", api.name())],
+                    });
+                    pool_new_round(&mut job, uni);
+                    mine.push(job);
+                }
+                start.wait();
+                for (j, job) in mine.into_iter().enumerate() {
+                    let _ = txs[(t + 1 + j) % txs.len()].send(Msg::Job(job));
+                }
+                while let Ok(Msg::Job(mut job)) = rx.recv() {
+                    let res = crate::util::guarded(|| {
+                        // one step on this thread
+                        let n = job.rng.range(1, 4).min(job.todo.len());
+                        for _ in 0..n {
+                            let (is_rec, i) = job.todo.remove(0);
+                            let r = if is_rec { job.dec.add_recovery(i, &job.recovery[i]) } else { job.dec.add_original(i, &job.originals[i]) };
+                            if let Err(e) = r {
+                                return Err(format!("add failed: {e:?}"));
+                            }
+                        }
+                        job.trail.push(format!("t{t}:add{n}"));
+                        if job.todo.is_empty() {
+                            let obs = job.dec.decode_obs(&[]).map_err(|e| format!("decode failed: {e:?}"))?;
+                            decodes.fetch_add(1, Ordering::Relaxed);
+                            let want = crate::mon_c01::expected(&job.originals, &job.given_originals);
+                            if obs.iter != want {
+                                return Err(format!("restored shards wrong: {}", crate::mon_c01::first_diff(&obs.iter, &want)));
+                            }
+                            job.trail.push(format!("t{t}:decode-ok"));
+                            job.rounds_left -= 1;
+                            if job.rounds_left > 0 {
+                                if job.rng.chance(1, 200) {
+                                    // (rarely) reconfigure here (this thread becomes the configuring thread)
+                                    let (api, k, r, size) = pool_config(&mut job.rng, uni);
+                                    if api == job.api {
+                                        job.dec.reset(k, r, size).map_err(|e| format!("reset failed: {e:?}"))?;
+                                    } else {
+                                        let work = std::mem::replace(&mut job.dec, codec::make_dec(api, 1, 1, 2, None).map_err(|e| format!("{e:?}"))?).into_work();
+                                        job.dec = codec::make_dec(api, k, r, size, work).map_err(|e| format!("new failed: {e:?}"))?;
+                                        job.api = api;
+                                    }
+                                    job.k = k;
+                                    job.r = r;
+                                    job.size = size;
+                                    job.trail.push(format!("t{t}:config {}({k},{r},{size})", api.name()));
+                                }
+                                pool_new_round(&mut job, uni);
+                            }
+                        }
+                        Ok(())
+                    });
+                    let failed = match res {
+                        Ok(Ok(())) => None,
+                        Ok(Err(m)) => Some(("C16:moved-object-wrong-result".to_string(), m)),
+                        Err(p) => Some((format!("C16:moved-object:{}", crate::util::panic_sig(&p)), p)),
+                    };
+                    if let Some((sig, m)) = failed {
+                        let tail: Vec<String> = job.trail.iter().rev().take(14).rev().cloned().collect();
+                        out.lock().unwrap().violate(sig, format!("{} k={} r={} size={}: {m}; steps: {}", job.api.name(), job.k, job.r, job.size, tail.join(" ")));
+                        job.rounds_left = 0;
+                    }
+                    if job.rounds_left == 0 {
+                        if live.fetch_sub(1, Ordering::SeqCst) == 1 {
+                            for tx in &txs {
+                                let _ = tx.send(Msg::Stop);
+                            }
+                        }
+                        continue;
+                    }
+                    // move on: another thread (never stay)
+                    let mut to = job.rng.below(txs.len());
+                    if to == t {
+                        to = (to + 1) % txs.len();
+                    }
+                    moves.fetch_add(1, Ordering::Relaxed);
+                    if txs[to].send(Msg::Job(job)).is_err() {
+                        live.fetch_sub(1, Ordering::SeqCst);
+                    }
+                }
+            });
+        }
+    });
+    let mut o = out.into_inner().unwrap();
+    o.evals = decodes.load(Ordering::Relaxed);
+    o.add("decoder moves between threads (mid-round or between rounds)", moves.load(Ordering::Relaxed));
+    o.add("decodes verified on moved decoders", decodes.load(Ordering::Relaxed));
+    o.tag("migration-pool");
+    for i in 0..decodes.load(Ordering::Relaxed).min(100_000) {
+        o.nontrivial.push(mix(0x3160, i));
+    }
+    o.sample = Some(jobj(&[(
+        "migration_pool",
+        jstr(&format!(
+            "{} decoders x {rounds} rounds hopping over {threads} threads; universe {:?}; received-set masks {:?}",
+            per_thread * threads,
+            uni.configs.iter().map(|c| format!("{}({},{})", c.0.name(), c.1, c.2)).collect::<Vec<_>>(),
+            uni.masks
+        )),
+    )]));
+    agg.lock().unwrap().absorb("migration", 0, o);
+}
+
 pub fn run(cfg: &RunCfg, agg: &Mutex<Agg>) {
+    migration_stage(cfg, agg);
+    if !cfg.stage_enabled("schedules") {
+        return;
+    }
     if let Some(cs) = cfg.only_case {
         // replay of one schedule
         run_schedules(cfg, agg, &[cs]);
